@@ -153,3 +153,88 @@ pub fn replay(v: &Value) -> Result<String, String> {
         Err(rep)
     }
 }
+
+/// In-process counterpart of `run_cases`: `total` generated cases in 16 proptest shards under
+/// rayon; the first failure of a shard is shrunk by proptest (keeping the failure key) and
+/// reported.  `eval` must be a pure function of the value.
+pub fn run_inproc<S, M, F>(ctx: &Ctx, name: &str, total: u32, mk: M, eval: F, sample: impl Fn(&S::Value) -> Value)
+where
+    S: Strategy,
+    S::Value: Clone + Send + std::fmt::Debug,
+    M: Fn() -> S + Sync,
+    F: Fn(&S::Value) -> CaseOutcome + Sync,
+{
+    let shards = 16u32;
+    let results: Vec<(Local, Vec<String>, Option<S::Value>)> = (0..shards)
+        .into_par_iter()
+        .map(|sh| {
+            let local = std::cell::RefCell::new(Local::default());
+            let inconc = std::cell::RefCell::new(Vec::new());
+            let first_key: std::cell::RefCell<Option<String>> = std::cell::RefCell::new(None);
+            let strat = mk();
+            let r = pt::run(ctx.sub_seed(name, sh as u64), (total / shards).max(1), &strat, |v, counting| {
+                match eval(v) {
+                    CaseOutcome::Pass { nontrivial, classes, digest } => {
+                        if counting {
+                            let mut l = local.borrow_mut();
+                            l.evals += 1;
+                            for c in &classes {
+                                l.class(c);
+                            }
+                            if nontrivial {
+                                l.digests.push(digest);
+                            }
+                        }
+                        Ok(())
+                    }
+                    CaseOutcome::Known(k) => {
+                        if counting {
+                            let mut l = local.borrow_mut();
+                            l.evals += 1;
+                            l.known(&k);
+                        }
+                        Ok(())
+                    }
+                    CaseOutcome::Inconclusive(w) => {
+                        if counting {
+                            inconc.borrow_mut().push(w);
+                        }
+                        Ok(())
+                    }
+                    CaseOutcome::Fail { key, what, .. } => {
+                        let mut fk = first_key.borrow_mut();
+                        match &*fk {
+                            None => {
+                                *fk = Some(key);
+                                Err(what)
+                            }
+                            Some(k0) if *k0 == key => Err(what),
+                            // a different failure met while shrinking: not the one being minimised
+                            Some(_) => Ok(()),
+                        }
+                    }
+                }
+            });
+            (local.into_inner(), inconc.into_inner(), r.map(|(v, _)| v))
+        })
+        .collect();
+    let mut n = 0u64;
+    for (sh, (l, inc, fail)) in results.into_iter().enumerate() {
+        n += l.evals;
+        l.merge_into(ctx);
+        for w in inc {
+            ctx.inconclusive(&format!("{} shard {}: {}", name, sh, w));
+        }
+        if let Some(v) = fail {
+            match eval(&v) {
+                CaseOutcome::Fail { key, what, replay } => ctx.fail(Failure { key, what: format!("[{} shard {} shrunk] {}", name, sh, what), replay }),
+                _ => ctx.harness_error(&format!("{} shard {}: shrunk case no longer fails (non-deterministic evaluation?)", name, sh)),
+            }
+        }
+    }
+    ctx.class(&format!("{}/cases", name), n);
+    let ex = pt::generate(ctx.sub_seed(name, 999), 2, &mk());
+    for v in &ex {
+        ctx.sample(sample(v));
+    }
+}
